@@ -43,19 +43,7 @@ theorem histInv_dom (d : Xml) (h : HistInv d = true) : WfRO d = true ∧ TimingO
   · rename_i rc hrc
     have hall := rcOk_all h
     constructor
-    · unfold WfRO
-      simp only [hrc, Bool.and_eq_true, WfKids, List.all_eq_true, Bool.or_eq_true, bne_iff_ne, ne_eq]
-      constructor
-      · intro c hc
-        by_cases ht : c.tag = "story"
-        · right; exact (storyOk_parts (hall c hc ht)).1
-        · left; exact ht
-      · intro c hc
-        by_cases ht : c.tag = "story"
-        · right
-          have := (storyOk_parts (hall c hc ht)).2.1
-          simpa [WfKids] using this
-        · left; exact ht
+    · simp [WfRO, hrc]
     · unfold TimingOk
       simp only [hrc, Option.isNone_iff_eq_none]
       unfold storiesExc
